@@ -7,6 +7,11 @@ pub mod range_spec {
     /// One element of the byte-range-set: `-n`, `first-`, `first-last`.
     pub enum Form { Suffix(u64), From(u64), Closed(u64, u64) }
 
+    /// `first-byte-pos`, `last-byte-pos`, `suffix-length` are `1*DIGIT` (RFC 7233 2.1) that fit in 64 bits.  ASSUMED about
+    /// std: `u64::from_str` accepts exactly an optional `+` followed by `1*DIGIT` within range (its documented grammar),
+    /// so a position is what `from_str` accepts minus the values with a sign.
+    pub open spec fn sp_pos(s: Str) -> Option<u64> { if sp_starts_with(s, "+"@) { None } else { sp_u64(s) } }
+
     /// Lexical shape of one list element over the assumed `str` primitives: OWS trimmed; no `-` or an unparseable
     /// number means the whole header is outside the grammar.
     pub open spec fn lex(e: Str) -> Option<Form> {
@@ -14,12 +19,12 @@ pub mod range_spec {
         match sp_find(r, '-') {
             None => None,
             Some(h) => if h == 0 {
-                match sp_u64(sp_slice(r, 1, sp_len(r))) { Some(n) => Some(Form::Suffix(n)), None => None }
+                match sp_pos(sp_slice(r, 1, sp_len(r))) { Some(n) => Some(Form::Suffix(n)), None => None }
             } else {
-                match sp_u64(sp_slice(r, 0, h)) {
+                match sp_pos(sp_slice(r, 0, h)) {
                     None => None,
                     Some(f) => if sp_len(r) > h + 1 {
-                        match sp_u64(sp_slice(r, (h + 1) as usize, sp_len(r))) { None => None, Some(l) => Some(Form::Closed(f, l)) }
+                        match sp_pos(sp_slice(r, (h + 1) as usize, sp_len(r))) { None => None, Some(l) => Some(Form::Closed(f, l)) }
                     } else { Some(Form::From(f)) }
                 }
             }
